@@ -174,6 +174,16 @@ def gen_cases(tier: str, seed: int) -> List[Dict]:
             a = S.make_poly_spec("a", names, exps, shape, rng, 3, zero_prob=0.0, literal_prob=0.3, mode="raw")
             n += 1
             cases.append({"id": "%s-%03d-rebuild-unusedlead" % (PROP, n), "op": "rebuild", "operands": [a, a], "expr": 0, "limits": lim})
+    # 1c. exponents whose storage-key character is special to str methods (digits, whitespace, control, combining characters):
+    # any text-level shortcut on field names (isdigit, strip, split, isprintable ...) must not lose or merge such terms
+    import unicodedata
+
+    special = [e for e in range(0, 3000) if (lambda ch: ch.isdigit() or ch.isspace() or ch.isnumeric() or not ch.isprintable() or unicodedata.combining(ch))(chr(e + 59))]
+    picks = sorted(set(rng.sample(special, 6 if quick else 60) + [e for e in (119, 120, 126) if e in special][:2]))
+    for e in picks:
+        a = S.make_poly_spec("a", ("q0", "q1"), [[e, 0], [1, 1], [e, e]], rng.choice([(), (2,)]), rng, 3, zero_prob=0.0, literal_prob=0.3, mode="raw")
+        n += 1
+        cases.append({"id": "%s-%03d-rebuild-specialkey" % (PROP, n), "op": "rebuild", "operands": [a, a], "expr": 0, "limits": lim})
     # 2. attribute triples: redundant zero columns, unused names, unsorted rows, duplicates x retain flags
     triples = []
     base = [
